@@ -62,7 +62,7 @@ func (d dissecting) Summarize(entry *api.Entry) *api.BaseEntry {
 	summary := string(entry.Request["questions"].([]interface{})[0].(map[string]interface{})["name"].(string))
 	summaryQuery := fmt.Sprintf(`request.questions[0].name == "%s"`, summary)
 	method := entry.Request["opCode"].(string)
-	methodQuery := fmt.Sprintf(`request.opCode == %s`, method)
+	methodQuery := fmt.Sprintf(`request.opCode == "%s"`, method)
 	status := 0
 	statusQuery := ""
 
